@@ -29,11 +29,13 @@ package treeset
 //@   ensures owners: forall x like set.tree.Root :: fresh(x) ==> x.tr == set.tree || x.tr == nil
 //@   ensures [C04] members: forall x like keylike(set) :: Mem(set, x) <==> old(Mem(set, x)) || (exists j :: 0 <= j && j < len(items) && set.tree.Comparator(x, items[j]) == 0)
 //@   ensures [C04] single: len(items) == 1 ==> (forall x like keylike(set) :: Mem(set, x) <==> old(Mem(set, x)) || set.tree.Comparator(x, items[0]) == 0)
+//@   ensures [C04] all-added: forall j :: 0 <= j && j < len(items) ==> Mem(set, items[j])
 //@   ensures [C04] N(set) >= old(N(set)) && N(set) <= old(N(set)) + len(items) && (len(items) == 0 ==> N(set) == old(N(set)))
 //@   loop 1:
 //@     invariant Inv(set) && Config(set) && 0 - 1 <= rangeindex && rangeindex < len(items)
 //@     invariant forall x like keylike(set) :: Mem(set, x) <==> old(Mem(set, x)) || (exists j :: 0 <= j && j <= rangeindex && set.tree.Comparator(x, items[j]) == 0)
 //@     invariant len(items) == 1 && rangeindex == 0 ==> (forall x like keylike(set) :: Mem(set, x) <==> old(Mem(set, x)) || set.tree.Comparator(x, items[0]) == 0)
+//@     invariant forall j :: 0 <= j && j <= rangeindex ==> Mem(set, items[j])
 //@     invariant forall x like set.tree.Root :: fresh(x) ==> x.tr == set.tree || x.tr == nil
 //@     invariant N(set) >= old(N(set)) && N(set) <= old(N(set)) + rangeindex + 1
 //@     decreases len(items) - rangeindex
@@ -222,3 +224,37 @@ package treeset
 //@     invariant ItInv(iterator) && iterator.index <= old(iterator.index)
 //@     invariant forall j :: iterator.index <= j && j < old(iterator.index) && 0 <= j ==> !f(j, redblacktree.KeyAt(iterator.tree, j))
 //@     decreases iterator.index + 1
+
+// ---- JSON (C11 round trip, C12 replace / sound / atomic) ----
+
+//@ func Set.ToJSON
+//@   requires Inv(set)
+//@   modifies nothing
+//@   ensures [C11 C17 C18] result1 == nil && fresh(arr(result0)) && jarr_kind(result0, keylike(set)) == 3 && jarr_len(result0, keylike(set)) == N(set)
+//@   ensures [C02 C11] order: forall i :: 0 <= i && i < N(set) ==> jarr_at(result0, i, keylike(set)) == KeyAt(set, i)
+
+//@ func Set.MarshalJSON
+//@   requires Inv(set)
+//@   modifies nothing
+//@   ensures [C11 C17 C18] result1 == nil && fresh(arr(result0)) && jarr_kind(result0, keylike(set)) == 3 && jarr_len(result0, keylike(set)) == N(set)
+//@   ensures [C02 C11] order: forall i :: 0 <= i && i < N(set) ==> jarr_at(result0, i, keylike(set)) == KeyAt(set, i)
+
+//@ func Set.FromJSON
+//@   requires Inv(set)
+//@   modifies set.tree.Root, set.tree.size, set.tree.n, set.tree.nodes, set.tree.rank
+//@   modifies each x like set.tree.Root where x.tr == set.tree : x.Left, x.Right, x.Parent, x.a, x.b, x.color, x.Key, x.Value, x.pos, x.tr
+//@   ensures [C12 C17] Inv(set) && (result == nil <==> jarr_kind(data, keylike(set)) >= 2) && Config(set)
+//@   ensures [C12] atomic: result != nil ==> (forall x like keylike(set) :: Mem(set, x) <==> old(Mem(set, x)))
+//@   ensures [C11 C12] loaded-only: jarr_kind(data, keylike(set)) == 3 ==> (forall x like keylike(set) :: Mem(set, x) ==> (exists j :: 0 <= j && j < jarr_len(data, keylike(set)) && set.tree.Comparator(x, jarr_at(data, j, keylike(set))) == 0))
+//@   ensures [C11 C12] loaded-all: jarr_kind(data, keylike(set)) == 3 ==> (forall j :: 0 <= j && j < jarr_len(data, keylike(set)) ==> Mem(set, jarr_at(data, j, keylike(set))))
+//@   ensures [C12] null: jarr_kind(data, keylike(set)) == 2 ==> N(set) == 0
+
+//@ func Set.UnmarshalJSON
+//@   requires Inv(set)
+//@   modifies set.tree.Root, set.tree.size, set.tree.n, set.tree.nodes, set.tree.rank
+//@   modifies each x like set.tree.Root where x.tr == set.tree : x.Left, x.Right, x.Parent, x.a, x.b, x.color, x.Key, x.Value, x.pos, x.tr
+//@   ensures [C12 C17] Inv(set) && (result == nil <==> jarr_kind(bytes, keylike(set)) >= 2) && Config(set)
+//@   ensures [C12] atomic: result != nil ==> (forall x like keylike(set) :: Mem(set, x) <==> old(Mem(set, x)))
+//@   ensures [C11 C12] loaded-only: jarr_kind(bytes, keylike(set)) == 3 ==> (forall x like keylike(set) :: Mem(set, x) ==> (exists j :: 0 <= j && j < jarr_len(bytes, keylike(set)) && set.tree.Comparator(x, jarr_at(bytes, j, keylike(set))) == 0))
+//@   ensures [C11 C12] loaded-all: jarr_kind(bytes, keylike(set)) == 3 ==> (forall j :: 0 <= j && j < jarr_len(bytes, keylike(set)) ==> Mem(set, jarr_at(bytes, j, keylike(set))))
+//@   ensures [C12] null: jarr_kind(bytes, keylike(set)) == 2 ==> N(set) == 0
